@@ -107,6 +107,7 @@ func (r *reference) String() string {
 }
 
 func (r *reference) resolveRef(cfg *Config, opts *options) (value, error) {
+	verifResolve(r)
 	env := opts.env
 
 	if ok := opts.activeFields.AddNew(r.Path.String()); !ok {
@@ -367,6 +368,7 @@ func lexer(in string) (<-chan token, <-chan error) {
 	errors := make(chan error, 1)
 
 	go func() {
+		verifLexer(true)
 		off := 0
 		content := in
 
@@ -374,6 +376,7 @@ func lexer(in string) (<-chan token, <-chan error) {
 			if len(content) > 0 {
 				lex <- token{tokString, content}
 			}
+			verifLexer(false)
 			close(lex)
 			close(errors)
 		}()
